@@ -58,6 +58,7 @@ func partitions(n int) [][]int {
 type aliasPlan struct {
 	label string
 	rep   map[int]int // param index -> representative param index (itself if none)
+	elem  map[int]int // slice-of-pointers param index -> pointer param index that is one of its elements
 }
 
 func (e *Engine) aliasPlans(fn *ssa.Function, c *Contract) []aliasPlan {
@@ -148,6 +149,41 @@ func (e *Engine) aliasPlans(fn *ssa.Function, c *Contract) []aliasPlan {
 					}
 					np.label += strings.Join(lab, ",")
 				}
+				next = append(next, np)
+			}
+		}
+		plans = next
+	}
+	// a pointer parameter may also be an element of a slice-of-pointers parameter
+	for vi, vp := range fn.Params {
+		sl, ok := underlying(vp.Type()).(*types.Slice)
+		if !ok {
+			continue
+		}
+		ept, ok := underlying(sl.Elem()).(*types.Pointer)
+		if !ok {
+			continue
+		}
+		var next []aliasPlan
+		for _, base := range plans {
+			next = append(next, base)
+			for pi, pp := range fn.Params {
+				ppt, ok := underlying(pp.Type()).(*types.Pointer)
+				if !ok || !types.Identical(ppt.Elem(), ept.Elem()) {
+					continue
+				}
+				if _, isRep := base.rep[pi]; isRep {
+					continue
+				}
+				np := aliasPlan{rep: base.rep, elem: map[int]int{}, label: base.label}
+				for k, v := range base.elem {
+					np.elem[k] = v
+				}
+				np.elem[vi] = pi
+				if np.label != "" {
+					np.label += ","
+				}
+				np.label += fmt.Sprintf("%s in %s", pp.Name(), vp.Name())
 				next = append(next, np)
 			}
 		}
@@ -273,6 +309,17 @@ func (e *Engine) makeParamSlice(st *State, name string, elem types.Type, fixedLe
 		n := mkInt64(fixedLen)
 		return &SliceVal{reg: r, off: mkInt64(0), length: n, capacity: n, elem: elem, backingN: fixedLen}
 	}
+	if pt, ok := underlying(elem).(*types.Pointer); ok {
+		// slice of pointers: the elements form a family of lazily symbolic objects
+		r := e.newRegion(name, elem, false)
+		r.dyn = true
+		r.family = pt.Elem()
+		n := mkIntVarR("len("+name+")", big0, big.NewInt(1<<40))
+		r.dynLen = n
+		cp := mkIntVarR("cap("+name+")", big0, big.NewInt(1<<40))
+		st.assume(mkLe(n, cp))
+		return &SliceVal{reg: r, off: mkInt64(0), length: n, capacity: cp, elem: elem, backingN: -1}
+	}
 	if !isScalarType(elem) {
 		e.fail("slice parameter %s of non-scalar elements needs a length split", name)
 	}
@@ -396,6 +443,13 @@ func (e *Engine) verifyVariant(fn *ssa.Function, c *Contract, plan aliasPlan, sc
 			}
 		}
 		params[p.Name()] = args[i]
+	}
+	for vi, pi := range plan.elem {
+		sv := args[vi].(*SliceVal)
+		sv.reg.aliasPtr = args[pi].(*PtrVal)
+		k := mkIntVarR("aliasidx("+fn.Params[vi].Name()+")", big0, big.NewInt(1<<40))
+		sv.reg.aliasIdx = k
+		st.assume(mkLt(k, sv.length))
 	}
 	// free variables of closures verified as functions
 	fvals := map[ssa.Value]Value{}
@@ -621,6 +675,9 @@ func (e *Engine) checkFrame(st *State, fr *Frame, fn *ssa.Function, c *Contract,
 	for _, g := range e.globals {
 		regByID[g.id] = g
 	}
+	for _, fr := range e.familyRegs {
+		regByID[fr.id] = fr
+	}
 	keys := make([]string, 0, len(st.mem.cells))
 	for k := range st.mem.cells {
 		keys = append(keys, k)
@@ -630,6 +687,11 @@ func (e *Engine) checkFrame(st *State, fr *Frame, fn *ssa.Function, c *Contract,
 		nv := st.mem.cells[k]
 		ov, existed := old.mem.cells[k]
 		if !existed {
+			id, _ := strconv.Atoi(strings.SplitN(k[1:], "/", 2)[0])
+			if reg := regByID[id]; reg != nil && reg.lazy {
+				// lazily symbolic region: any materialised cell is a write
+				e.addObligation(st, fr, "frame", reg.name+"@"+k, tFalse, "cell of "+reg.name+" outside `modifies` was written")
+			}
 			continue
 		}
 		if sameValue(nv, ov) {
